@@ -413,9 +413,10 @@ fn opnd_from_json(v: &Value) -> Opnd {
         "reg8" => Opnd::Reg8(st(v["r"].as_str().unwrap())),
         "reg16" => Opnd::Reg16(st(v["r"].as_str().unwrap())),
         "sreg" => Opnd::Sreg(st(v["r"].as_str().unwrap())),
-        "imm" => Opnd::Imm(v["v"].as_i64().unwrap() as i32),
+        "imm" => Opnd::Imm(v.get("raw").and_then(|x| x.as_i64()).unwrap_or_else(|| v["v"].as_i64().unwrap()) as i32),
+        "offset" => Opnd::Offset { name: v["name"].as_str().unwrap().to_string(), off: v["v"].as_u64().unwrap_or(0) as u32 },
         "mem" => Opnd::Mem { seg: st(v["seg"].as_str().unwrap()), base: st(v["base"].as_str().unwrap()), index: st(v["index"].as_str().unwrap()), disp: v["disp"].as_i64().unwrap() as i32, has_disp: true },
-        "label" => Opnd::Label { name: format!("vl{}", v["off"].as_u64().unwrap()), off: v["off"].as_u64().unwrap() as u32 },
+        "label" => Opnd::Label { name: v.get("name").and_then(|x| x.as_str()).filter(|n| n.len() > 1).map(|n| n.to_string()).unwrap_or_else(|| format!("vl{}", v["off"].as_u64().unwrap())), off: v["off"].as_u64().unwrap() as u32 },
         k => panic!("harness: operand kind {}", k),
     }
 }
@@ -448,6 +449,16 @@ pub fn ins_from_json(v: &Value) -> Ins {
         }
         "call" => Ins::Call { name: v["proc"].as_str().unwrap().to_string(), target: 0 },
         "ret" => Ins::Ret,
+        "logic" => Ins::Logic { op: stat(op, &["and", "or", "xor", "test"]), w, dst: opnd_from_json(&v["dst"]), src: opnd_from_json(&v["src"]) },
+        "not" => Ins::Not { w, dst: opnd_from_json(&v["dst"]) },
+        "shift" => {
+            let mn = v.get("mn").and_then(|x| x.as_str()).unwrap_or(op);
+            let cnt = if v["cnt"]["k"] == "cl" { Cnt::Cl } else { Cnt::Imm(v["cnt"]["v"].as_u64().unwrap() as u32) };
+            Ins::Shift { op: stat(op, &["sal", "shr", "sar", "rol", "ror", "rcl", "rcr"]), mn: stat(mn, &["sal", "shl", "shr", "sar", "rol", "ror", "rcl", "rcr"]), w, dst: opnd_from_json(&v["dst"]), cnt }
+        }
+        "adjust" => Ins::Adjust { op: stat(op, &["aaa", "aas", "daa", "das", "aam", "aad", "cbw", "cwd"]) },
+        "xlat" => Ins::Xlat,
+        "lea" => Ins::Lea { dst: opnd_from_json(&v["dst"]), src: opnd_from_json(&v["src"]) },
         "int" => Ins::Int { n: v["n"].as_u64().unwrap() as u32 },
         "print" => {
             let wt = &v["what"];
@@ -462,7 +473,15 @@ pub fn ins_from_json(v: &Value) -> Ins {
         }
         "string" => {
             let rep = v["rep"].as_str().unwrap();
-            let (r, rm): (&'static str, &'static str) = match rep { "" => ("", ""), "rep" => ("rep", "rep"), "repz" => ("repz", "repe"), _ => ("repnz", "repne") };
+            let rmn = v.get("repmn").and_then(|x| x.as_str()).unwrap_or("");
+            let (r, rm): (&'static str, &'static str) = match (rep, rmn) {
+                ("", _) => ("", ""),
+                ("rep", _) => ("rep", "rep"),
+                ("repz", "repz") => ("repz", "repz"),
+                ("repz", _) => ("repz", "repe"),
+                (_, "repnz") => ("repnz", "repnz"),
+                _ => ("repnz", "repne"),
+            };
             Ins::Str { op: stat(op, &["movs", "lods", "stos", "cmps", "scas"]), w, rep: r, repmn: rm }
         }
         c => panic!("harness: replay of class {} not supported", c),
@@ -690,4 +709,65 @@ pub fn gen_c09(asm: &Asm, mach: &mut Mach, rng: &mut Rng, sh: &mut Shards, thoro
         let stack: Vec<usize> = if matches!(ins, Ins::Ret) && rng.chance(2, 3) { vec![rng.below(5) as usize] } else { vec![] };
         b.one(&format!("c09:{}", key), &ins, &Spelling::default(), &regs, flags, &stack);
     }
+}
+
+// ---------------------------------------------------------------------------------------------
+// C10 / C11: the grammar's shape set (enumerated by TLC) through the real assembler and the
+// downstream parsers, under several spellings
+// ---------------------------------------------------------------------------------------------
+pub fn gen_shapes(asm: &Asm, mach: &mut Mach, rng: &mut Rng, sh: &mut Shards, path: &str, thorough: bool) {
+    let text = std::fs::read_to_string(path).expect("shape file");
+    let spellings: Vec<Spelling> = vec![
+        Spelling { case: Case::Lower, radix: Radix::Dec, wide: false, nl: false },
+        Spelling { case: Case::Upper, radix: Radix::Hex, wide: true, nl: false },
+        Spelling { case: Case::Lower, radix: Radix::Bin, wide: true, nl: true },
+        Spelling { case: Case::Upper, radix: Radix::Dec, wide: false, nl: false },
+    ];
+    let mut n: u64 = 0;
+    for line in text.lines() {
+        if line.trim().is_empty() {
+            continue;
+        }
+        let j: Value = serde_json::from_str(line).expect("shape json");
+        let ins = ins_from_json(&j);
+        let cls = j["cls"].as_str().unwrap_or("?").to_string();
+        let mut emitted: Vec<Option<Vec<String>>> = Vec::new();
+        let nsp = if thorough { 4 } else { 3 };
+        for (si, sp) in spellings.iter().take(nsp).enumerate() {
+            // the first spelling of every pair is fixed, the others vary with the shape number
+            let sp = *sp;
+            let _ = si;
+            let regs = stress_regs(rng);
+            let flags = rng.u16();
+            let seed = ((n / 32) % 251) as i64;
+            let stack: Vec<usize> = if matches!(ins, Ins::Ret) { vec![2] } else { vec![] };
+            let evs = run_one(asm, mach, &ins, &sp, &regs, flags, seed, &[], &stack);
+            // what was emitted for this rendering, and the data lines through the real loader
+            match assemble_ins(asm, &ins, &sp) {
+                Ok((a, _, src)) => {
+                    let mut vm = emulator_8086_lib::VM::new();
+                    if let Err(e) = load_data(&mut vm, &a.out.data) {
+                        sh.unit(&[json!({"ev":"downstream","kind":"data","src":src,"err":e,"lines":a.out.data})]);
+                    }
+                    emitted.push(Some(a.out.code.clone()));
+                }
+                Err(_) => emitted.push(None),
+            }
+            sh.count(&format!("shape:{}", cls), 1);
+            sh.unit(&evs);
+        }
+        // every accepted rendering of one shape must emit the same instruction list
+        let acc: Vec<&Vec<String>> = emitted.iter().flatten().collect();
+        if acc.len() >= 2 {
+            let same = acc.iter().all(|x| *x == acc[0]);
+            sh.count("spelling-pairs", 1);
+            sh.unit(&[json!({"ev":"spelling","same":same,"ast":j,"lists":acc})]);
+        }
+        if emitted.iter().any(|x| x.is_none()) && emitted.iter().any(|x| x.is_some()) {
+            // accepted under one spelling, refused under another
+            sh.unit(&[json!({"ev":"spelling","same":false,"ast":j,"lists":emitted.iter().map(|x| x.clone().unwrap_or_default()).collect::<Vec<_>>()})]);
+        }
+        n += 1;
+    }
+    sh.count("shapes", n);
 }
